@@ -93,6 +93,20 @@ var GNPool = []GNPoolEntry{
 	{"email-good", func() *der.Node { return GNEmail("alice@example.com") }},
 	{"email-bad", func() *der.Node { return GNEmail("not-an-address") }},
 	{"email-angle", func() *der.Node { return GNEmail("<alice@example.com>") }},
+	// directoryName entries that carry (or do not carry) mailbox addresses
+	{"dir-with-email", func() *der.Node {
+		return GNDir(Name(A(OIDCN, "Carol Example"), A(OIDEmail, "carol@example.com")))
+	}},
+	{"dir-with-other-email", func() *der.Node {
+		return GNDir(Name(A(OIDO, "Example Org"), A(OIDEmail, "dave@example.org")))
+	}},
+	{"dir-with-two-emails", func() *der.Node {
+		return GNDir(Name(A(OIDEmail, "erin@example.com"), A(OIDCN, "Erin"), A(OIDEmail, "erin.alt@example.net")))
+	}},
+	{"dir-with-san-email", func() *der.Node { return GNDir(Name(A(OIDCN, "Alice"), A(OIDEmail, "alice@example.com"))) }},
+	{"dir-with-non-mailbox-email", func() *der.Node { return GNDir(Name(A(OIDEmail, "helpdesk at example dot com"))) }},
+	{"dir-cn-only", func() *der.Node { return GNDir(Name(A(OIDC, "US"), A(OIDCN, "No Mailbox Here"))) }},
+	{"dir-empty", func() *der.Node { return GNDir(Name()) }},
 	{"email-empty", func() *der.Node { return GNEmail("") }},
 	{"email-quoted-space", func() *der.Node { return GNEmail("\"john doe\"@example.com") }},
 	{"email-space-local", func() *der.Node { return GNEmail("john doe@example.com") }},
